@@ -41,7 +41,7 @@ def _serial(di: bool, q: int, sh: int, k1: int, k2: int, kx: int, ky: int, cfg: 
     pre: 0 <= s0 <= 6 and 0 <= s1 <= 5 and 0 <= s2 <= 4 and 0 <= s3 <= 3 and 0 <= s4 <= 2 and 0 <= s5 <= 1 and s6 == 0
     pre: shard_of(q * 4 + cfg + sh + s0)
     pre: thorough() or sh == 0 or (q == 0 and s3 == 0)
-    pre: thorough() or q != 5 or (s3 == 0 and s4 == 0)
+    pre: thorough() or q != 5 or (s3 == 0 and s4 == 0 and k1 <= 1 and k2 == 1 and kx == 1)
     pre: not di or q == 5 or (thorough() and sh == 0)
     post: _
     """
@@ -101,7 +101,7 @@ def serial_ok(log, base_log=None):
 
 CONDITIONS = [
     Cond(
-        name="serial", fn=_serial, quick=150, thorough=900, per_path=60, shards_quick=16, shards_thorough=20,
+        name="serial", fn=_serial, quick=240, thorough=900, per_path=60, shards_quick=16, shards_thorough=20,
         bound="6 mutation operations (1..3 top-level fields, nested custom sub-resolvers, aliases of the same field, meta-fields between the mutations) x introspection enabled / disabled x %d spellings of the same top-level fields (plain, named / typed inline / untyped inline / directive inline fragment, "
               "nested fragments, split between selection and fragment, selected by name among several operations; quick: all spellings for the 3-field operation only, 4th completion choice fixed) x" % len(SHAPES) + " resolver kinds (m1: default/value/ResolverError/ValueError; m2, x: value/ResolverError; y: default/value) "
               "x 4 configurations x EVERY completion order (<= 7 in-flight tasks)",
